@@ -304,6 +304,13 @@ class Patch:
 _MISSING = object()
 
 
+def srepr(x, n=120):
+    try:
+        return repr(x)[:n]
+    except Exception as e:
+        return f'<unreprable {type(x).__name__}: {type(e).__name__}>'
+
+
 def call(f, *a, **k):
     """Run f; return ('ok', value) or ('exc', exception). Only Exception subclasses are 'rejections'."""
     try:
